@@ -157,7 +157,7 @@ func (w *World) sliceOp(fr *frame, instr *ssa.Slice) Value {
 	}
 	switch x := x.(type) {
 	case Str:
-		if x.opq {
+		if x.opq || x.tok != nil {
 			w.unsupported(fr, "slice of a string with unknown content")
 		}
 		n := int64(x.Len())
@@ -373,7 +373,7 @@ func (w *World) binop(fr *frame, op token.Token, t types.Type, x, y Value) Value
 		}
 		switch op {
 		case token.ADD:
-			if xv.opq || yv.opq {
+			if xv.opq || yv.opq || xv.tok != nil || yv.tok != nil {
 				return Str{opq: true, taint: xv.taint | yv.taint}
 			}
 			if xv.b == nil && yv.b == nil {
@@ -545,6 +545,9 @@ func (w *World) equals(t types.Type, x, y Value) *Term {
 }
 
 func (w *World) strEq(x, y Str) *Term {
+	if x.tok != nil || y.tok != nil {
+		return w.tokEq(x, y)
+	}
 	if x.opq || y.opq {
 		panic(pathEnd{"unsupported", "comparison of a string with unknown content (formatted from symbolic operands)"})
 	}
@@ -593,7 +596,7 @@ func (w *World) conv(fr *frame, tdst, tsrc types.Type, x Value) Value {
 	case *types.Slice:
 		// string -> []byte / []rune
 		s := x.(Str)
-		if s.opq {
+		if s.opq || s.tok != nil {
 			w.unsupported(fr, "bytes of a string with unknown content")
 		}
 		switch ut_dst.Elem().Underlying().(*types.Basic).Kind() {
@@ -999,7 +1002,7 @@ func (w *World) callBuiltin(fr *frame, fn *ssa.Builtin, args []Value) Value {
 	case "len":
 		switch x := args[0].(type) {
 		case Str:
-			if x.opq {
+			if x.opq || x.tok != nil {
 				w.unsupported(fr, "len of a string with unknown content")
 			}
 			return tt.BV(64, uint64(x.Len()))
